@@ -124,32 +124,34 @@ Section Space.
 
   (* lookupWithoutRewards / lookupResource / lookupKv.  mem = this space's records of
      au.deltas; dbr = the round stored in the DB (what the SQL lookup returns as Round). *)
+  (* second half of a lookup: base cache, then the DB with the round re-check *)
+  Definition sp_fall (en : bool) (pcap : nat) (dbRound dbr : nat) (s : sp) (k : K) : lres V * sp :=
+    match c_read (c_lru (s_cache s)) k with
+    | Some e => (LOk (ce_val e), sp_setc s (cache_wpend en pcap (s_cache s) e))
+    | None =>
+        if nf_mode && existsb (keqb k) (c_nf (s_cache s)) then (LOk vempty, s)
+        else if dbr =? dbRound then
+          let v := db_get (s_db s) k in
+          if nf_mode && is_empty v
+          then (LOk vempty, sp_setc s (cache_wpnf en pcap (s_cache s) k))
+          else (LOk v, sp_setc s (cache_wpend en pcap (s_cache s) (mkCE k v dbr)))
+        else if dbr <? dbRound then (LErr 3, s)
+        else (LRetry, s)
+    end.
+
   Definition sp_lookup (en : bool) (pcap : nat) (dbRound dbr : nat) (mem : list (list (K * D)))
              (s : sp) (rnd : nat) (k : K) : lres V * sp :=
     if rnd <? dbRound then (LErr 1, s) else
     let off := rnd - dbRound in
     if length mem <? off then (LErr 2, s) else
-    let fall : lres V * sp :=
-      match c_read (c_lru (s_cache s)) k with
-      | Some e => (LOk (ce_val e), sp_setc s (cache_wpend en pcap (s_cache s) e))
-      | None =>
-          if nf_mode && existsb (keqb k) (c_nf (s_cache s)) then (LOk vempty, s)
-          else if dbr =? dbRound then
-            let v := db_get (s_db s) k in
-            if nf_mode && is_empty v
-            then (LOk vempty, sp_setc s (cache_wpnf en pcap (s_cache s) k))
-            else (LOk v, sp_setc s (cache_wpend en pcap (s_cache s) (mkCE k v dbr)))
-          else if dbr <? dbRound then (LErr 3, s)
-          else (LRetry, s)
-      end in
     match aget k (s_mods s) with
     | Some (v, _) =>
         if off =? length mem then (LOk v, s)
         else match walk (firstn off mem) k with
              | Some d => (LOk (interp d), s)
-             | None => fall
+             | None => sp_fall en pcap dbRound dbr s k
              end
-    | None => fall
+    | None => sp_fall en pcap dbRound dbr s k
     end.
 
   (* getCreatorForRound: no cache; the modified map is only consulted for the latest round *)
